@@ -193,6 +193,7 @@ pub struct SetupOpts {
     pub retention: std::ops::RangeInclusive<usize>,
     pub cfgs: Vec<Cfg>,
     pub with_reference: bool,
+    pub twin: bool,
 }
 
 impl Default for SetupOpts {
@@ -207,6 +208,7 @@ impl Default for SetupOpts {
             retention: 5..=5,
             cfgs: vec![Cfg::default()],
             with_reference: true,
+            twin: false,
         }
     }
 }
@@ -244,6 +246,7 @@ pub fn setup_strategy(o: &SetupOpts) -> BoxedStrategy<Setup> {
                 cfg,
                 regime,
                 with_reference: o.with_reference,
+                twin: o.twin,
             }
         })
         .boxed()
